@@ -7,8 +7,8 @@ use guppy::graph::PackageGraph;
 use indexmap::IndexMap;
 
 use pavex_bp_schema::Blueprint;
-use persist_if_changed::persist_if_changed;
 
+use crate::AppWriter;
 use crate::compiler::analyses::application_config::ApplicationConfig;
 use crate::compiler::analyses::application_state::ApplicationState;
 use crate::compiler::analyses::call_graph::{
@@ -291,7 +291,10 @@ pub struct AppDiagnostics {
 
 impl AppDiagnostics {
     /// Save all diagnostics in a single file.
-    pub fn persist_flat(&self, filepath: &Path) -> Result<(), anyhow::Error> {
+    ///
+    /// The file is written through `writer`: in check mode it is left untouched
+    /// and recorded as outdated if its contents differ.
+    pub fn persist_flat(&self, filepath: &Path, writer: &mut AppWriter) -> Result<(), anyhow::Error> {
         let mut buffer = Vec::new();
         for handler_graphs in &self.handlers {
             for handler_graph in handler_graphs {
@@ -302,7 +305,7 @@ impl AppDiagnostics {
         }
         buffer.write_all(self.application_state.as_bytes())?;
 
-        persist_if_changed(filepath, &buffer)?;
+        writer.persist_if_changed(filepath, &buffer)?;
         Ok(())
     }
 }
